@@ -36,7 +36,6 @@ const codejenPath = "github.com/grafana/codejen"
 // body is always allowed. Anything else is reported: it would carry data across iterations.
 var c03ExemptAllowedState = map[string][]string{
 	"internal/codegen.Pipeline.Run range targetsByLanguage":                        {"*"},
-	"internal/jennies/python.Builder.Generate range buildersByPackage":             {"jenny.apiRefCollector"},
 	"internal/jennies/java.Factory.Generate range factoryByPackage":                {},
 	"internal/jennies/php.Factory.Generate range factoryByPackage":                 {},
 	"internal/jennies/common.APIReference.referenceForSchema range virtualObjects": {},
@@ -44,7 +43,6 @@ var c03ExemptAllowedState = map[string][]string{
 
 var c03EmissionExemptions = map[string]string{
 	"internal/codegen.Pipeline.Run range targetsByLanguage":                        "the body is a whole language back-end; iterations are independent iff C07's clauses hold (passes run on copies, no package-level state, per-language Language values); every output path is prefixed by the language's directory; all files go through the path-keyed codejen.FS",
-	"internal/jennies/python.Builder.Generate range buildersByPackage":             "one file per package; import map, type formatters and text buffer are re-created at the top of the body; the API-reference collector is a map keyed by builder/package reference and buildersByPackage partitions builders by package",
 	"internal/jennies/java.Factory.Generate range factoryByPackage":                "one file per package; generateFactories builds its import map and formatter locally; factoryByPackage partitions factories by package",
 	"internal/jennies/php.Factory.Generate range factoryByPackage":                 "one file per package; generateFactories builds its formatter locally; factoryByPackage partitions factories by package",
 	"internal/jennies/common.APIReference.referenceForSchema range virtualObjects": "one file per virtual object, path derived from the object reference; formatters are per-language closures that only read their arguments",
@@ -127,6 +125,8 @@ func checkC03(ctx *Ctx, r *Report) {
 	c18IRCopies(ctx, r)
 	c03ReferenceParsersVerbatim(ctx, r)
 	c07SortedValueUsed(ctx, r)
+	c03FirstWinsReached(ctx, r)
+	c07HuntedRules(ctx, r)
 }
 
 func (st *c03State) siteName(s mapSite) string {
@@ -1148,4 +1148,144 @@ func c03MapOrderIn(ctx *Ctx, r *Report, prefixes []string) {
 		st.classify(s)
 	}
 	st.checkMapOrderedCallers()
+}
+
+// c03FirstWinsReached: a keyed write is order-insensitive only when different iterations cannot compete for one key.
+// A function that records a key in persistent state and leaves early when the key is already there ("first one
+// wins": `if _, found := g.seen[name]; found { return }; g.seen[name] = …`) makes every map-ordered loop that can
+// reach it order-sensitive as soon as two iterations can produce the same key — the JSON Schema front-end declared
+// the definition a `$ref` points to from inside the loop over the properties map, under the last segment of the
+// pointer, and `#/definitions/Thing` and `#/$defs/Thing` competed. Every range over a Go map whose body reaches such
+// a function (cog-only call graph, depth 8) is reported; reviewed sites sit in a table.
+var c03FirstWinsTable = map[string]string{}
+
+func c03FirstWinsReached(ctx *Ctx, r *Report) {
+	eng := newEffectsEngine(ctx)
+	g := buildCallGraph(ctx, eng)
+	// first-wins functions
+	firstWins := map[*types.Func]string{}
+	for fn, n := range g.nodes {
+		if n.decl == nil || n.decl.Body == nil {
+			continue
+		}
+		info := n.pkg.TypesInfo
+		var tested []ast.Expr
+		ast.Inspect(n.decl.Body, func(m ast.Node) bool {
+			is, ok := m.(*ast.IfStmt)
+			if !ok || len(is.Body.List) == 0 {
+				return true
+			}
+			if _, isRet := is.Body.List[len(is.Body.List)-1].(*ast.ReturnStmt); !isRet {
+				return true
+			}
+			// `_, found := M[k]; found`
+			if init, ok := is.Init.(*ast.AssignStmt); ok && len(init.Lhs) == 2 && len(init.Rhs) == 1 {
+				if ix, ok := ast.Unparen(init.Rhs[0]).(*ast.IndexExpr); ok {
+					if _, isMap := info.TypeOf(ix.X).Underlying().(*types.Map); isMap {
+						if okID, ok := init.Lhs[1].(*ast.Ident); ok && isIdentOf(info, is.Cond, objOf(info, okID)) {
+							if f := fieldOf(info, ix.X); f != nil { // persistent state: a field
+								tested = append(tested, ix.X)
+							}
+						}
+					}
+				}
+			}
+			return true
+		})
+		for _, mexpr := range tested {
+			stored, restored := false, false
+			ast.Inspect(n.decl.Body, func(m ast.Node) bool {
+				if as, ok := m.(*ast.AssignStmt); ok {
+					for _, l := range as.Lhs {
+						if ix, ok := ast.Unparen(l).(*ast.IndexExpr); ok && sameAccessPath(info, ix.X, mexpr) {
+							stored = true
+						}
+					}
+				}
+				// `defer delete(M, k)`: an in-progress set of a recursion, empty again when the call returns
+				if c, ok := m.(*ast.CallExpr); ok && isBuiltinCall(info, c, "delete") && len(c.Args) == 2 && sameAccessPath(info, c.Args[0], mexpr) {
+					restored = true
+				}
+				return true
+			})
+			if stored && !restored {
+				firstWins[fn] = exprString(mexpr)
+			}
+		}
+	}
+	r.Count("first-wins functions (leave when the key is recorded, record it otherwise)", len(firstWins))
+	// map-range sites
+	sites, reaching := 0, 0
+	for _, p := range ctx.Pkgs {
+		if _, skip := c03ExcludedPkgs[p.PkgPath]; skip {
+			continue
+		}
+		info := p.TypesInfo
+		for _, f := range p.Syntax {
+			for _, d := range f.Decls {
+				fd, ok := d.(*ast.FuncDecl)
+				if !ok || fd.Body == nil {
+					continue
+				}
+				fobj, _ := info.Defs[fd.Name].(*types.Func)
+				ast.Inspect(fd.Body, func(n ast.Node) bool {
+					rs, ok := n.(*ast.RangeStmt)
+					if !ok {
+						return true
+					}
+					if _, isMap := info.TypeOf(rs.X).Underlying().(*types.Map); !isMap {
+						return true
+					}
+					sites++
+					// callees reachable from the body
+					var start []*types.Func
+					ast.Inspect(rs.Body, func(m ast.Node) bool {
+						if c, ok := m.(*ast.CallExpr); ok {
+							if fn := callee(info, c); fn != nil && g.nodes[fn.Origin()] != nil {
+								start = append(start, fn.Origin())
+							}
+						}
+						return true
+					})
+					seen := map[*types.Func]int{}
+					queue := start
+					for _, s := range start {
+						seen[s] = 1
+					}
+					hit, via := (*types.Func)(nil), ""
+					for len(queue) > 0 && hit == nil {
+						cur := queue[0]
+						queue = queue[1:]
+						if why, ok := firstWins[cur]; ok && cur != fobj {
+							hit, via = cur, why
+							break
+						}
+						if seen[cur] >= 8 {
+							continue
+						}
+						for next := range g.nodes[cur].out {
+							if _, done := seen[next]; !done && g.nodes[next] != nil {
+								seen[next] = seen[cur] + 1
+								queue = append(queue, next)
+							}
+						}
+					}
+					if hit == nil {
+						return true
+					}
+					reaching++
+					cons := ctx.FuncName(fobj) + " range " + exprString(rs.X) + " reaches " + hit.Name()
+					if why, ok := c03FirstWinsTable[cons]; ok {
+						r.OK("maporder/first-wins-reached", cons, rs.Pos(), "reviewed: "+why)
+						return true
+					}
+					r.Bad("maporder/first-wins-reached", cons, rs.Pos(), "the body of this loop over a Go map can reach "+ctx.FuncName(hit)+", which keeps the first value recorded under a key of "+via+" and ignores the later ones: when two iterations lead to the same key, which one is kept depends on the iteration order of the map — two runs on the same input differ")
+					return true
+				})
+			}
+		}
+	}
+	r.Count("map-range sites checked for first-wins reachability", sites)
+	r.Count("map-range sites reaching a first-wins function", reaching)
+	r.Floor("first-wins functions (leave when the key is recorded, record it otherwise)", 1)
 }
